@@ -316,6 +316,26 @@ def hrunOps (grow : Nat → Nat → Nat) : Option HSt → List String → List S
       | .panic => "panic" :: hrunOps grow none ls
       | .ok s' out => out :: hrunOps grow (some s') ls
 
+/-- `caps`: the capacity of every register's word slice (a pure observation of the heap model's
+slice headers, compared with the real `cap(b.set)` read by reflection; it depends on the growth
+function, so it is not part of the by-value machine and handled by the driver loop itself) -/
+def showCaps (s : HSt) : String := s!"caps {showNats (s.regs.map fun o => o.hdr.cap)}"
+
+/-- `hrunOps` plus the `caps` observation -/
+def hrunOpsC (grow : Nat → Nat → Nat) : Option HSt → List String → List String
+  | _, [] => []
+  | none, _ :: ls => "dead" :: hrunOpsC grow none ls
+  | some s, l :: ls =>
+    if toks l = ["caps"] then showCaps s :: hrunOpsC grow (some s) ls
+    else
+      match parseOp (toks l) with
+      | none => "bad-op" :: hrunOpsC grow (some s) ls
+      | some op =>
+        match hstep grow s op with
+        | .bad => "bad-op" :: hrunOpsC grow (some s) ls
+        | .panic => "panic" :: hrunOpsC grow none ls
+        | .ok s' out => out :: hrunOpsC grow (some s') ls
+
 def parseKindH (k : String) : Option Kind :=
   if k = "bits" then some .bits
   else if k = "bitmap" then some .bitmap
@@ -331,16 +351,27 @@ same table as `Golib.C14.goGrow`, duplicated to keep the properties independent)
 
 def sizeClasses8 : List Nat :=
   [8, 16, 24, 32, 48, 64, 80, 96, 112, 128, 144, 160, 176, 192, 208, 224, 240, 256, 288, 320, 352,
-   384, 416, 448, 480, 512, 576, 640, 704, 768, 896, 1024, 1152, 1280, 1408, 1536, 1792, 2048]
+   384, 416, 448, 480, 512, 576, 640, 704, 768, 896, 1024, 1152, 1280, 1408, 1536, 1792, 2048, 2304,
+   2688, 3072, 3200, 3456, 4096, 4864, 5376, 6144, 6528, 6784, 6912, 8192, 9472, 9728, 10240, 10880,
+   12288, 13568, 14336, 16384, 18432, 19072, 20480, 21760, 24576, 27264, 28672, 32768]
+
+def roundUpSize8 (bytes : Nat) : Nat :=
+  match sizeClasses8.find? (· ≥ bytes) with
+  | some c => c
+  | none => (bytes + 8191) / 8192 * 8192
+
+def nextCapLoop8 (newLen : Nat) : (fuel newcap : Nat) → Nat
+  | 0, c => c
+  | f + 1, c =>
+    let c := c + (c + 3 * 256) / 4
+    if c ≥ newLen then c else nextCapLoop8 newLen f c
 
 def goGrow8 (oldCap newLen : Nat) : Nat :=
   let doublecap := oldCap + oldCap
   let newcap :=
     if newLen > doublecap then newLen
     else if oldCap < 256 then doublecap
-    else oldCap + (oldCap + 3 * 256) / 4
-  match sizeClasses8.find? (· ≥ newcap * 8) with
-  | some c => c / 8
-  | none => newcap
+    else nextCapLoop8 newLen 64 oldCap
+  roundUpSize8 (newcap * 8) / 8
 
 end Golib.C16
